@@ -206,6 +206,17 @@ func cycleMustFail(L *Layout) bool {
 func addRemote(g *G, L *Layout) {
 	re := regexp.MustCompile(`(?m)^(\s*(?:file|path): |\s*- )"(\./[^"]*\.yaml)"$`)
 	main := L.Main[0]
+	// sometimes the remote reference sits in an extends base file (nested hop) rather than in the main file
+	var bases []string
+	for f := range L.Files {
+		if strings.Contains(f, "/base") && strings.HasSuffix(f, ".yaml") && re.MatchString(L.Files[f]) {
+			bases = append(bases, f)
+		}
+	}
+	sort.Strings(bases)
+	if len(bases) > 0 && g.chance("remote-nested", 1, 3) {
+		main = bases[g.n("remote-base", len(bases))]
+	}
 	txt := L.Files[main]
 	locs := re.FindAllStringSubmatchIndex(txt, -1)
 	if len(locs) == 0 {
